@@ -13,7 +13,7 @@ ID = "C19"
 RULE = ("A program of table operations over a pool of (table, list-of-tuples model) pairs. Table types: Interval, Bed6, Bed12, BedGraph, NarrowPeak, "
         "ChromosomeSize, SequenceEntry, SequenceEntryWithQuality, SAMEntry, GTFEntry, PairsEntry, VCFWithInfoAsStringEntry and BamEntry (CIGAR lengths up to 2^28 in a numerically encoded ragged column, given as lists of rows) from bionumpy.datatypes, and "
         "classes made with make_dataclass over str, SequenceID, int, float, bool, Optional[int], List[int], a DNA-encoded column and a nested table; "
-        "0..N rows. Numeric columns are given in varying but valid dtypes (Python ints, int32, uint8, whole-number floats as ints). Operations: len, "
+        "0..N rows; for Interval, Bed6, SAM, VCF, FASTQ and two-line FASTA a third of the initial tables are written with the library's writer and read back lazily, so the program runs on a table as it comes out of a file. Numeric columns are given in varying but valid dtypes (Python ints, int32, uint8, whole-number floats as ints). Operations: len, "
         "index with integer, slice, boolean mask, integer list, np.concatenate, sort_by(column), iteration, bnp.replace, add_fields, tolist, todict, from_dict(todict()), "
         "topandas -> from_data_frame, from_entry_tuples, construction with a foreign character in an encoded column, construction with columns of "
         "different lengths. Oracle after every step: every column has the table's length; tolist()/rows equal the model rows; every operand still "
@@ -24,11 +24,13 @@ ASSUMPTIONS = [
     "Passing text to a numeric column is not asserted either way (construction only documents np.asanyarray for numbers).",
     "pandas round trips are checked for column types pandas can carry (no list-valued or quality columns).",
 ]
-REQUIRED_CLASSES = ["dict-roundtrip", "bam", "concat", "sort_by", "replace", "add_fields", "pandas", "from_entry_tuples", "bad-construction", "empty-operand", "single-row-operand",
+REQUIRED_CLASSES = ["table-read-from-file", "dict-roundtrip", "bam", "concat", "sort_by", "replace", "add_fields", "pandas", "from_entry_tuples", "bad-construction", "empty-operand", "single-row-operand",
                     "dynamic-class", "nested-table", "mixed-dtype-concat", "int-index"]
 BOUNDS = {"quick": "300 programs of up to 12 steps for each of 16 table types, tables of up to 6 rows", "thorough": "4000 programs of up to 30 steps per type, tables of up to 20 rows"}
 BUDGET_S = {"quick": 200, "thorough": 1500}
 
+# types without float columns that are read lazily from their text format: used for the 'table as read from a file' variant
+FILE_TYPES = ("interval", "bed6", "sam", "vcf", "fastq", "fasta2")
 STATIC = ["interval", "bed6", "bed12", "bedgraph", "narrowpeak", "chromsizes", "fasta2", "fastq", "sam", "gtf", "pairs", "vcf", "bam"]
 # table types that are not in the C03 list (no text writer): name -> (dataclass path, column kinds)
 EXTRA = {
@@ -163,6 +165,8 @@ def classify(case):
             cl.append(k)
     if "int" in names:
         cl.append("int-index")
+    if case.get("from_file") and case["rows"]:
+        cl.append("table-read-from-file")
     if tname in DYNAMIC:
         cl.append("dynamic-class")
     if tname == "dyn_nested":
@@ -188,6 +192,15 @@ def check(case, stats=None):
     src = [tuple(r) for r in case["rows"]]
     try:
         t0 = build(tname, src, case.get("variant", 0))
+        if case.get("from_file") and tname in FILE_TYPES and src:
+            # the same table as it comes out of a file: written with the library's writer and read back lazily (the default reading mode)
+            import tempfile
+            bt = c03._load(c03.TYPES[tname][1])
+            with tempfile.TemporaryDirectory(prefix="pbtc19", dir="/dev/shm" if os.path.isdir("/dev/shm") else None) as d_:
+                path = os.path.join(d_, "t" + c03.TYPES[tname][2])
+                with bnp.open(path, "w", buffer_type=bt) as fh:
+                    fh.write(t0)
+                t0 = bnp.open(path, buffer_type=bt).read()
     except Exception as e:
         return [Failure(f"C19:construct-raised:{tname}:{type(e).__name__}:{_where(e)}", {"error": repr(e)[:300]})]
     pool = [(t0, list(src))]
@@ -299,6 +312,10 @@ def check(case, stats=None):
                 else:
                     vals = ["v%d" % ((op["seed"] + i) % 7) + "x" * (i % 3) for i in range(n)]
                     arr = list(vals) if n else []
+                    if hasattr(T, "get_data_object") and n:
+                        # a lazily read table takes replacement values as arrays in the column's own representation (C04/C05 assumption)
+                        from bionumpy.string_array import as_string_array
+                        arr = as_string_array(list(vals)) if k == "id" else bnp.as_encoded_array(list(vals))
                 if n == 0 and not isinstance(arr, np.ndarray):
                     continue
                 new = bnp.replace(T, **{nm: arr})
@@ -377,7 +394,10 @@ def check(case, stats=None):
                 if stats is not None:
                     stats.tolerant["sort_by-TypeError"] += 1
                 continue
-            out.append(Failure(f"C19:raised:{name}:{tname}:{type(e).__name__}:{_where(e)}", {"error": repr(e)[:300], "op": op}))
+            if hasattr(T, "get_data_object"):
+                out.append(Failure(f"C19:raised-on-table-read-from-file:{name}:{type(e).__name__}", {"error": repr(e)[:300], "op": op, "type": tname}))
+            else:
+                out.append(Failure(f"C19:raised:{name}:{tname}:{type(e).__name__}:{_where(e)}", {"error": repr(e)[:300], "op": op}))
         if out:
             break
         # operands are unchanged
@@ -449,7 +469,8 @@ def c19_case(draw, tname, max_rows, max_steps):
         if tname == "bam":
             row[8] = draw(st.text(alphabet="!5I~#", min_size=len(row[7]), max_size=len(row[7])))
         rows.append(row)
-    return {"type": tname, "rows": rows, "variant": draw(st.sampled_from([0, 1, 2])), "program": draw(st.lists(op_strategy(), min_size=1, max_size=max_steps))}
+    return {"type": tname, "rows": rows, "variant": draw(st.sampled_from([0, 1, 2])), "program": draw(st.lists(op_strategy(), min_size=1, max_size=max_steps)),
+            "from_file": tname in FILE_TYPES and draw(st.integers(0, 2)) == 0}
 
 
 def task_type(stats, known_open, tname, n, seed, max_rows, max_steps):
